@@ -182,9 +182,26 @@ class Builder(object):
     return self.mk("ite", (c, a, b), None, a.sort, a.nosub and b.nosub)
 
   def cmp(self, op, a, b): return self.mk(op, (a, b), None, "B")
-  def b_and(self, *a): return self.mk("and", a, None, "B") if len(a) > 1 else a[0]
-  def b_or(self, *a): return self.mk("or", a, None, "B") if len(a) > 1 else a[0]
-  def b_not(self, a): return self.mk("not", (a,), None, "B")
+  def b_and(self, *a):
+    if any(x.op == "bconst" and not x.attr for x in a):
+      return self.const(False)
+    a = tuple(x for x in a if x.op != "bconst")
+    if not a:
+      return self.const(True)
+    return self.mk("and", a, None, "B") if len(a) > 1 else a[0]
+
+  def b_or(self, *a):
+    if any(x.op == "bconst" and x.attr for x in a):
+      return self.const(True)
+    a = tuple(x for x in a if x.op != "bconst")
+    if not a:
+      return self.const(False)
+    return self.mk("or", a, None, "B") if len(a) > 1 else a[0]
+
+  def b_not(self, a):
+    if a.op == "bconst":
+      return self.const(not a.attr)
+    return self.mk("not", (a,), None, "B")
   def b2f(self, a): return self.ite(a, self.const(1.0), self.const(0.0))
 
   def nsum(self, terms):
